@@ -502,19 +502,48 @@ class Ev:
         return out
 
     def ev_Call(self, n):
-        if n.keywords and any(k.arg is None for k in n.keywords):
-            raise Unknown("**kw")
         fname = ast.unparse(n.func)
+
+        def kwargs_of():
+            out = {}
+            for k in n.keywords:
+                v = self.ev(k.value)
+                if k.arg is None:
+                    if not isinstance(v, dict) or not all(isinstance(x, str) for x in v):
+                        raise Unknown("**kw of a non-dict")
+                    out.update(v)
+                else:
+                    out[k.arg] = v
+            return out
         if fname in self.hooks:
             h = self.hooks[fname]
+            hargs = []
+            for a in n.args:
+                if isinstance(a, ast.Starred):
+                    hargs.extend(self.ev(a.value))
+                else:
+                    hargs.append(self.ev(a))
             if getattr(h, "wants_kw", False):
-                return h([self.ev(a) for a in n.args], {k.arg: self.ev(k.value) for k in n.keywords})
-            return h([self.ev(a) for a in n.args])
+                return h(hargs, kwargs_of())
+            if any(k.arg is None for k in n.keywords):
+                raise Unknown("**kw")
+            return h(hargs)
+        if n.keywords and any(k.arg is None for k in n.keywords) and not (
+                isinstance(n.func, ast.Name) or (isinstance(n.func, ast.Attribute) and isinstance(n.func.value, ast.Name) and n.func.value.id == "self")):
+            raise Unknown("**kw")
         if isinstance(n.func, ast.Attribute) and self.hooks:
             # receiver given through a local alias of the hooked object
             recv = n.func.value
             if isinstance(recv, ast.Name) and isinstance(self.env.get(recv.id), Opaque):
                 full = "%s.%s" % (self.env[recv.id].text, n.func.attr)
+                if full in self.hooks:
+                    return self.hooks[full]([self.ev(a) for a in n.args])
+            root, chain = recv, []
+            while isinstance(root, ast.Attribute):
+                chain.append(root.attr)
+                root = root.value
+            if chain and isinstance(root, ast.Name) and isinstance(self.env.get(root.id), Opaque):
+                full = ".".join([self.env[root.id].text] + chain[::-1] + [n.func.attr])
                 if full in self.hooks:
                     return self.hooks[full]([self.ev(a) for a in n.args])
         args = []
@@ -526,7 +555,7 @@ class Ev:
                 args.extend(self.ev(a.value))
             else:
                 args.append(self.ev(a))
-        kw = {k.arg: self.ev(k.value) for k in n.keywords}
+        kw = kwargs_of()
         if fname in ("getattr", "setattr", "hasattr") and n.args and _self_rooted(n.args[0]) and "self" not in self.env \
                 and len(args) >= 2 and isinstance(args[1], str) and not kw:
             # attribute of the object under evaluation (or of an object reached from it) selected by a folded name
@@ -734,7 +763,10 @@ class Ev:
         for p, d in zip(params[len(params) - len(defaults):], defaults):
             dmap[p] = d
         if len(args) > len(params):
-            raise Unknown("too many args")
+            if fd.args.vararg is None:
+                raise Unknown("too many args")
+        if fd.args.vararg is not None:
+            env.append((fd.args.vararg.arg, tuple(args[len(params):])))
         for i, p in enumerate(params):
             if i < len(args):
                 env.append((p, args[i]))
@@ -744,6 +776,19 @@ class Ev:
                 env.append((p, self.ev(dmap[p])))
             else:
                 raise Unknown("missing arg %s" % p)
+        for a_, d_ in zip(fd.args.kwonlyargs, fd.args.kw_defaults):
+            if a_.arg in kw:
+                env.append((a_.arg, kw[a_.arg]))
+            elif d_ is not None:
+                env.append((a_.arg, self.ev(d_)))
+            else:
+                raise Unknown("missing keyword-only arg %s" % a_.arg)
+        known = set(params) | {a_.arg for a_ in fd.args.kwonlyargs}
+        extra = {k: v for k, v in kw.items() if k not in known}
+        if fd.args.kwarg is not None:
+            env.append((fd.args.kwarg.arg, extra))
+        elif extra:
+            raise Raised("TypeError")
         return env
 
     # -- pure function bodies ---------------------------------------------
